@@ -32,6 +32,24 @@ CLAIMS = {
             "values). Trusted: rustc nightly front end, svfacts printer, call-graph model (trait calls expanded to all "
             "impls of value traits; AValueDyn trampolines -> all impls).",
             "DESIGN.md section 2, C07"),
+    "C12": ("MIR must-pass-through on loop-exit handlers + dominance in the return emitter + sibling pairing",
+            "Structural clauses only: each structured loop exit (exhaustion in InstrIter/InstrContinue, break, "
+            "return via write_return/write_iter_stop) reaches iter_stop on every path; exit by error (run_block Err "
+            "arm) must stop open iterators (currently a known finding); list/dict/set acquire-release pairs and "
+            "their frozen siblings agree; raw iterate/iter_stop trampolines used only by handlers and the RAII "
+            "StarlarkIterator. Decides these necessary conditions for all paths, not each builtin's behaviour.",
+            "Not decided: behaviour of every builtin x container combination at run time; mutator-side checks are "
+            "claimed under C04. Trusted: rustc front end, svfacts, CFG kernels.",
+            "DESIGN.md section 2, C12"),
+    "C15": ("MIR dominance (tick before transfer), interprocedural over handler helpers; call-graph who-may-invoke",
+            "Structural clauses only: every call-family instruction handler (those that can reach with_call_stack in "
+            "the resolved call graph) and the loop back edge call report_forward_progress on every path before the "
+            "transfer of control and propagate its error; raw invocations occur only under with_call_stack or in "
+            "callee-side forwarders; CheapCallStack::push tests the bound before writing; the periodic check consults "
+            "cancellation, heap and tick limits on every Ok path.",
+            "Not decided: boundary arithmetic (>= vs >), tick totals. Trusted: rustc front end, svfacts, call-graph "
+            "model.",
+            "DESIGN.md section 2, C15"),
 }
 
 
